@@ -3,7 +3,7 @@
    function F (regenerated constants and pause shapes: Gen/C16Gen.v) answers at the newest sample of h;
    [clean] = no Python-level exception was raised along the history. *)
 From QT Require Import C16.Spec C16.Lemmas C16.PauseThm C16.GenOk C16.SimpleThm C16.HoldThm C16.SampledThm C16.SeqThm
-  C16.DelayThm C16.FilterThm.
+  C16.DelayThm C16.FilterThm C16.ArgModel C16.ArgThm.
 From QT Require Import Expr.FuncInfo Gen.FuncTable.
 Open Scope Z_scope.
 
@@ -110,6 +110,73 @@ Theorem C16_registry : forallb registry_entry_ok all_fns = true.
 Proof. exact registry_ok. Qed.
 Print Assumptions C16_registry.
 
+(* ------------------------------------------------------------------ unavailable / failing arguments; which are evaluated when
+   (C16/ArgModel.v: a sample carries the OUTCOME of every argument expression; ostep also returns the evaluated positions) *)
+
+(* on plain values the outcome model is the value model *)
+Theorem C16_ostep_values : forall f st now a, arity_ok f a = true ->
+  proj3 (ostep f st now (map AVal a)) = xlift (fstep f st now a).
+Proof. exact (ostep_values held_pause_fixed). Qed.
+Print Assumptions C16_ostep_values.
+
+(* during a hold SAMPLE answers the held value whatever its arguments do (unavailable, failing), and evaluates none of them *)
+Theorem C16_SAMPLE_hold_law : forall st now a0 a1 a0' a1',
+  sample_holding st now = true ->
+  ostep SAMPLE st now [a0; a1] = ostep SAMPLE st now [a0'; a1']
+  /\ snd (ostep SAMPLE st now [a0; a1]) = []
+  /\ (forall p, py_add (VInt (s_time st)) (s_dur st) = POk p ->
+        ostep SAMPLE st now [a0; a1] = (st, XOut (out_opt (s_last st)), PUntil p, [])).
+Proof. exact (SAMPLE_hold_law held_pause_fixed). Qed.
+Print Assumptions C16_SAMPLE_hold_law.
+
+Theorem C16_FREEZE_hold_law : forall st now ao ao',
+  s_time st <> 0 -> py_gt (VInt (now - s_time st)) (s_dur st) = false ->
+  ostep FREEZE st now ao = ostep FREEZE st now ao'
+  /\ snd (ostep FREEZE st now ao) = []
+  /\ (forall p, py_add (VInt (s_time st)) (s_dur st) = POk p ->
+        ostep FREEZE st now ao = (st, XOut (out_opt (s_last st)), PUntil p, [])).
+Proof. exact (FREEZE_hold_law held_pause_fixed). Qed.
+Print Assumptions C16_FREEZE_hold_law.
+
+Theorem C16_FREEZE_idle_evaluates : forall st now a0 a1,
+  s_time st = 0 ->
+  snd (ostep FREEZE st now [a0; a1]) =
+    match a0 with AVal v => if opt_ne v (s_last st) then [0; 1]%nat else [0%nat] | _ => [0%nat] end.
+Proof. exact (FREEZE_idle_evaluates held_pause_fixed). Qed.
+Print Assumptions C16_FREEZE_idle_evaluates.
+
+(* every other function (SEQUENCE apart, which stamps its start time first) evaluates all its arguments first: a failing one
+   leaves the memory untouched *)
+Theorem C16_eager_failure : forall f st now ao x, plain f = true -> first_fail ao = Some x ->
+  ostep f st now ao = (st, x, fail_pause x now, all_idx ao).
+Proof. exact (eager_failure held_pause_fixed). Qed.
+Print Assumptions C16_eager_failure.
+
+Theorem C16_eager_evaluates_all : forall f st now ao, plain f = true -> snd (ostep f st now ao) = all_idx ao.
+Proof. exact (eager_evaluates_all held_pause_fixed). Qed.
+Print Assumptions C16_eager_evaluates_all.
+
+(* history level (every function except FREEZE and SEQUENCE): the object's state after a history of argument outcomes is
+   its state after the effective value history, and the newest outcome is the specified one *)
+Theorem C16_effective_state : forall f oh h,
+  covered_fn f = true -> otimes_pos oh = true -> oshaped f oh = true -> eff_hist f oh = Some h ->
+  (f = SAMPLE -> full_pre SAMPLE h = true /\ clean (outs (fstep SAMPLE) h) = true) ->
+  ostate_after (ostep f) oh = state_after (fstep f) h.
+Proof. exact effective_state. Qed.
+Print Assumptions C16_effective_state.
+
+Theorem C16_outcome_spec : forall f now ao older h x ev,
+  covered_fn f = true -> otimes_pos ((now, ao) :: older) = true -> oshaped f ((now, ao) :: older) = true ->
+  eff_hist f older = Some h ->
+  olast (ostep f) ((now, ao) :: older) = Some (x, ev) ->
+  match eff_step f h (now, ao) with
+  | EKeep s' => full_pre f (s' :: h) = true -> clean (outs (fstep f) (s' :: h)) = true -> x = XOut (spec_of f (s' :: h))
+  | EDrop x' => (f = SAMPLE -> full_pre SAMPLE h = true /\ clean (outs (fstep SAMPLE) h) = true) -> x = x'
+  | EStop => True
+  end.
+Proof. exact outcome_spec. Qed.
+Print Assumptions C16_outcome_spec.
+
 (* non-vacuity: a tick sequence within the theorem's hypotheses on which the hub really skips evaluations (ticks 2 and 4
    are not evaluated) and HELD turns true at its deadline; DELAY reproduces its input 1000 ms later *)
 Example C16_nonvacuous :
@@ -128,3 +195,13 @@ Proof.
   cbv zeta. split; [|vm_compute; repeat split; reflexivity].
   cbn [ticks_ok]. repeat split; try reflexivity; try discriminate; intros; reflexivity.
 Qed.
+
+(* non-vacuity of the outcome theorems: the input is unavailable in the middle of a hold; SAMPLE answers the held 5 and
+   evaluates nothing; once the hold is over an unavailable input makes it unavailable, all arguments evaluated *)
+Example C16_nonvacuous_outcomes :
+  let oh := [(1500, [AUnavail; AVal (VInt 1000)]); (1000, [AVal (VInt 5); AVal (VInt 1000)])] in
+  spec_o SAMPLE oh = Some (XOut (OVal (VInt 5)))
+  /\ olast (ostep SAMPLE) oh = Some (XOut (OVal (VInt 5)), [])
+  /\ olast (ostep SAMPLE) ((2000, [AUnavail; AVal (VInt 1000)]) :: oh) = Some (XUnavail, [0; 1]%nat)
+  /\ spec_o SAMPLE ((2000, [AUnavail; AVal (VInt 1000)]) :: oh) = Some XUnavail.
+Proof. vm_compute. repeat split; reflexivity. Qed.
